@@ -498,12 +498,15 @@ def units(ctx):
 
 
 SPEC = Spec(
+    lean=["Sweep.lean", "Folds.lean"],
     prop=PROP, level="other",
     functions=[(TR, "Trace.convert_time_series_to_events"), (ST, "TraceSymbolTable.get_runtime_launch_events_query"), (TC, "TraceCounters._get_queue_length_time_series_for_rank"),
                (TC, "TraceCounters._get_memory_bw_time_series_for_rank"), (TA, "TraceAnalysis.generate_trace_with_counters")],
     units=units, replay=replay_launch_query, bounded=[Bounded("series_vs_step_functions", bounded), Bounded("history_independence", history.stage(PROP, "queue", "gen")), Bounded("history_independence_membw", history.stage(PROP, "membw", "gen"))],
     trusted=["pandas contracts used by the row-local part (rename, column assignment, apply, to_dict('records'))", "float bandwidth sums treated as exact up to 1e-6"],
-    explanation="Proved (z3 from the AST): counter events = series rows at ts + min_ts with {counter: value} / ph 'C' / pid / id / name; the launch query selects exactly the "
-                "eleven launch names with a positive link. Bounded (real code vs. step-function oracles, never counted as proved): both series as prefix sums per stream / copy "
-                "type, tie handling, final value 0, non-negativity, the written file.",
+    explanation="Proved (z3 from the AST): counter events = series rows at ts + min_ts with {counter: value} / ph 'C' / pid / id / name; the launch query, over an arbitrary symbol "
+                "table, selects exactly the rows decoding to one of the eleven launch names with a positive link; the marker tables of both series (+1 at the launch call / -1 at the linked "
+                "kernel's start per stream; +bandwidth at a copy's start / -bandwidth at its end per copy type), their time order and running value = prefix sum. The reading 'running value "
+                "= number of outstanding launches / sum of the bandwidths of the active copies at that instant' is the sweep lemma L3 (lean/Sweep.lean, machine-checked; instantiated by "
+                "reading). Bounded (real code vs. step-function oracles, never counted as proved): both public series, tie handling, final value 0, non-negativity, the written file.",
 )
